@@ -7,6 +7,8 @@
 mod gen;
 mod out;
 mod c05;
+mod c19;
+mod c19_consts;
 
 use gen::Rng;
 use out::Out;
@@ -64,6 +66,7 @@ fn main() {
     let mut rng = Rng::new(seed);
     match prop.as_str() {
         "C05" => c05::run(&mut out, &mut rng, tier),
+        "C19" => c19::run(&mut out, &mut rng, tier),
         _ => {
             eprintln!("unknown property {}", prop);
             std::process::exit(2);
